@@ -129,6 +129,8 @@ fn check(program: &Vec<TIns>, st: &mut Stats) -> CheckResult {
         }
         for (name, d) in &s.defines {
             if let Some(d) = d {
+                // a redefinition replaces the expectation for that name
+                pending.retain(|(n, _)| n != name);
                 pending.push((name.clone(), d.clone()));
             }
         }
@@ -194,7 +196,10 @@ fn check(program: &Vec<TIns>, st: &mut Stats) -> CheckResult {
         st.label("known-class:polymorphic-literal-generated");
     }
     let f = &g.features;
-    if completed && (f.rational_power || f.composite_exponent || f.generic_instantiations >= 2 || f.struct_or_list) {
+    if completed && (f.rational_power || f.composite_exponent || f.generic_instantiations >= 2 || f.struct_or_list || f.redefinition) {
+        if f.redefinition {
+            st.label("global-redefined-at-another-dimension-then-read-in-function");
+        }
         if f.rational_power {
             st.label("has-rational-power");
         }
